@@ -357,6 +357,29 @@ def cursorBox (s : Screen) (cx cy : Nat) : Option Rect :=
     | (true, x, y, x2, y2) => some ⟨x.toNat, y.toNat, x2.toNat, y2.toNat⟩
     | (false, _, _, _, _) => none
 
+/-! ### pixel translation to a client's format -/
+
+/-- the RFB colour-scaling rule of the translation tables: `(c*outMax + inMax/2) / inMax` -/
+def scaleRfb (c inMax outMax : Nat) : Nat := (c * outMax + inMax / 2) / inMax
+
+/-- what `cl->translateFn` makes of one pixel.  `none`: the client uses the server's format
+(`PF_EQ`, rfbTranslateNone: the bytes are copied).  `some (cf, cb)`: a true-colour client format
+`cf` of `cb` bytes per pixel in the server's byte order, each channel of which fits the pixel: every
+table variant of translate.c (single table / three tables; the table machinery itself is
+property C10) yields the three rescaled channels at the client's shifts. -/
+def transPx (sf : Format) (t : Option (Format × Nat)) (p : Px) : Px :=
+  match t with
+  | none => p
+  | some (cf, cb) =>
+    ((scaleRfb ((p >>> sf.redShift) &&& sf.redMax) sf.redMax cf.redMax <<< cf.redShift) |||
+     (scaleRfb ((p >>> sf.greenShift) &&& sf.greenMax) sf.greenMax cf.greenMax <<< cf.greenShift) |||
+     (scaleRfb ((p >>> sf.blueShift) &&& sf.blueMax) sf.blueMax cf.blueMax <<< cf.blueShift)) % 2 ^ (8 * cb)
+
+/-- how pixels go to one client: the translation of a pixel and the client's bytes per pixel -/
+structure Wire where
+  tr : Px → Px
+  bpp : Nat
+
 /-! ### cursor pseudo-rectangles -/
 
 def be16 (n : Nat) : List UInt8 := [UInt8.ofNat (n / 256), UInt8.ofNat n]
@@ -387,9 +410,10 @@ def convertFor (v : Variant) (f : Format) (bpp : Nat) (useRich : Bool) (c0 : Cur
 def isEmptyCursor (c : Cursor) : Option Bool :=
   if c.w = 1 ∧ c.h = 1 then (c.mask[0]?).map (· == 0) else some false
 
-/-- the payload after the rectangle header: XCursor — colours, bitmap, mask; RichCursor — pixels
-(client format = server format: sent as they are), mask -/
-def shapePayload (bpp : Nat) (useRich : Bool) (c : Cursor) : Option (List UInt8) :=
+/-- the payload after the rectangle header: XCursor — colours, bitmap, mask; RichCursor — the
+pixels row by row (input row stride `width*bpp1`: consecutive in `richSource`), each translated by
+`cl->translateFn` into the client's `bpp2` bytes, then the mask -/
+def shapePayload (w : Wire) (useRich : Bool) (c : Cursor) : Option (List UInt8) :=
   let maskBytes := rowBytes c.w * c.h
   (tabulate? maskBytes fun k => c.mask[k]?).bind fun (mk : Array UInt8) =>
   if useRich then
@@ -397,7 +421,7 @@ def shapePayload (bpp : Nat) (useRich : Bool) (c : Cursor) : Option (List UInt8)
     | none => none
     | some rich =>
       (tabulate? (c.w * c.h) fun k => rich[k]?).map fun (px : Array Px) =>
-        px.toList.flatMap (pxBytes bpp) ++ mk.toList
+        (px.toList.map w.tr).flatMap (pxBytes w.bpp) ++ mk.toList
   else
     match c.source with
     | none => none
@@ -409,16 +433,16 @@ def shapePayload (bpp : Nat) (useRich : Bool) (c : Cursor) : Option (List UInt8)
 
 /-- does the cursor rectangle fit the update buffer right after the FramebufferUpdate header?
 (otherwise the code flushes and, if it still does not fit, takes `return FALSE; /* FIXME */`) -/
-def shapeFits (bpp : Nat) (useRich : Bool) (c : Cursor) : Bool :=
+def shapeFits (w : Wire) (useRich : Bool) (c : Cursor) : Bool :=
   let maskBytes := rowBytes c.w * c.h
-  let dataBytes := if useRich then c.w * c.h * bpp else maskBytes
+  let dataBytes := if useRich then c.w * c.h * w.bpp else maskBytes
   sz_rfbFramebufferUpdateMsg + sz_rfbFramebufferUpdateRectHeader + sz_rfbXCursorColors
     + maskBytes + dataBytes ≤ UPDATE_BUF_SIZE
 
 /-- rfbSendCursorShape on the screen's cursor: the (possibly converted) cursor and the bytes
 appended to the update buffer.  `none`: a conversion failed (NULL bitmap) or the cursor does not
 fit (`shapeFits`, excluded: see `shape_fits`). -/
-def shapeCore (v : Variant) (f : Format) (bpp : Nat) (cur : Option Cursor) (useRich : Bool) :
+def shapeCore (v : Variant) (f : Format) (bpp : Nat) (w : Wire) (cur : Option Cursor) (useRich : Bool) :
     Option (Option Cursor × List UInt8) :=
   let enc := if useRich then encRichCursor else encXCursor
   match cur with
@@ -427,12 +451,12 @@ def shapeCore (v : Variant) (f : Format) (bpp : Nat) (cur : Option Cursor) (useR
     (convertFor v f bpp useRich c0).bind fun c =>
     (isEmptyCursor c).bind fun isEmpty =>
       if isEmpty then some (some c, rectHeader 0 0 0 0 enc)
-      else if !shapeFits bpp useRich c then none
-      else (shapePayload bpp useRich c).map fun pl =>
+      else if !shapeFits w useRich c then none
+      else (shapePayload w useRich c).map fun pl =>
         (some c, rectHeader c.xhot c.yhot c.w c.h enc ++ pl)
 
-def cursorShapeRect (v : Variant) (s : Screen) (useRich : Bool) : Option (Screen × List UInt8) :=
-  (shapeCore v s.fmt s.bpp s.cursor useRich).map fun (c', m) => ({ s with cursor := c' }, m)
+def cursorShapeRect (v : Variant) (s : Screen) (w : Wire) (useRich : Bool) : Option (Screen × List UInt8) :=
+  (shapeCore v s.fmt s.bpp w s.cursor useRich).map fun (c', m) => ({ s with cursor := c' }, m)
 
 /-- rfbSendCursorPos -/
 def cursorPosRect (s : Screen) : List UInt8 := rectHeader s.curX s.curY 0 0 encPointerPos
